@@ -402,5 +402,5 @@ fn check_fault(ctx: &Ctx, c: &Case10, live: &Live, target: u8, i: usize, dir: &s
 }
 
 pub fn subs(_ctx: &Ctx) -> Vec<Box<dyn Sub>> {
-    vec![prop_sub("crash-at-byte-prefix-and-store-faults", 160, 6_000, case10(), check10)]
+    vec![prop_sub("crash-at-byte-prefix-and-store-faults", 320, 8_000, case10(), check10)]
 }
